@@ -1058,6 +1058,94 @@ def part_generated(task: Tuple, col: common.Collector) -> None:
                        limit=3)
 
 
+def capture_tool(fn: Any, *a: Any) -> str:
+    """stdout of a tool entry point that prints with rich"""
+    global _BUF
+    import rich
+    if _BUF is None:
+        _BUF = io.StringIO()
+        rich.reconfigure(file=_BUF, width=240, color_system=None, force_terminal=False,
+                         force_jupyter=False, force_interactive=False, no_color=True,
+                         legacy_windows=False)
+    _BUF.seek(0)
+    _BUF.truncate()
+    fn(*a)
+    return _BUF.getvalue()
+
+
+def tool_leg(col: common.Collector, tmp: str, edits: List[G.J]) -> None:
+    """The compare tool end to end (compare.run with the namespace its own argument parser
+    produces): the two overview tables it prints are those of the two files named in their
+    headlines, with and without a selection of variants."""
+    import argparse
+    import odxtools
+    from odxtools.cli import compare
+    subj = Subject("somersault", None, tmp)
+    root_o = ET.fromstring(subj.xml)
+    picks = [e for e in edits if e["op"] in ("add", "delete")][:2]
+    parser = argparse.ArgumentParser()
+    sub = parser.add_subparsers(dest="subparser_name")
+    compare.add_subparser(sub)
+    old_path = os.path.join(tmp, "old_db.pdx")
+    shutil.copy(subj.pdx, old_path)
+    db_old = odxtools.load_pdx_file(old_path)
+    for n, e in enumerate(picks):
+        root_e = ET.fromstring(subj.xml)
+        apply_edit(root_e, e)
+        new_path = os.path.join(tmp, f"new_db_{n}.pdx")
+        with zipfile.ZipFile(new_path, "w", zipfile.ZIP_DEFLATED) as z:
+            for name, data in subj.files.items():
+                z.writestr(name, to_xml(root_e).encode("utf-8") if name == "somersault.odx-d" else data)
+        try:
+            db_new = odxtools.load_pdx_file(new_path)
+        except Exception:
+            col.count("tool-leg:edit-not-loadable")
+            continue
+        names = [dl.short_name for dl in db_new.diag_layers]
+        for variants in (None, names, names[:2], [e["layer"]]):
+            argv = ["compare", new_path, "-db", old_path] + (["-v"] + variants if variants else [])
+            det = {"what": "compare-tool", "edit": e, "argv": argv[:1] + ["<new>", "-db", "<old>"] + argv[4:]}
+            col.ev()
+            try:
+                text = capture_tool(compare.run, parser.parse_args(argv))
+            except BaseException as x:  # noqa
+                det["problem"] = f"{type(x).__name__}: {x}"
+                col.violation(("compare-tool-raises", type(x).__name__), det)
+                continue
+            # split the output at the overview headlines
+            sections: List[Tuple[str, str]] = []
+            cur: Optional[List[str]] = None
+            for line in text.splitlines():
+                m = re.match(r"\s*Overview of diagnostic layers \(for (.*)\)", line)
+                if m:
+                    cur = []
+                    sections.append((m.group(1), ""))
+                elif line.strip().startswith("Changed diagnostic services") or \
+                        line.strip().startswith("Changes in"):
+                    cur = None
+                if cur is not None and not m:
+                    sections[-1] = (sections[-1][0], sections[-1][1] + line + "\n")
+            want_names = [os.path.basename(new_path), os.path.basename(old_path)]
+            if [n for n, _ in sections[:2]] != want_names:
+                det["problem"] = f"overview headlines {[n for n, _ in sections]}, expected {want_names}"
+                col.violation(("compare-tool-overview-wrong", "headlines"), det)
+                continue
+            for (fname, body), db in zip(sections[:2], (db_new, db_old)):
+                layers = [dl for dl in db.diag_layers if variants is None or dl.short_name in variants]
+                rows = parse_table(body)
+                want = [[dl.short_name, dl.variant_type.value, str(len(dl.services)),
+                         str(len(dl.diag_data_dictionary_spec.data_object_props)),
+                         str(len(getattr(dl, "comparam_refs", [])))] for dl in layers]
+                col.count("tool-leg:overview-tables")
+                col.nontrivial(("compare-tool", e["op"], variants is None, fname == want_names[0]))
+                if rows != want:
+                    det2 = dict(det, file=("new" if fname == want_names[0] else "old"),
+                                table_rows=rows, expected_rows=want,
+                                problem="the overview printed for this file does not show its layers' numbers")
+                    col.violation(("compare-tool-overview-wrong",
+                                   "variants-selected" if variants else "all-layers"), det2)
+
+
 def part_somersault(task: Tuple, col: common.Collector) -> None:
     chunk, edits = task
     warnings.simplefilter("ignore")
@@ -1066,6 +1154,8 @@ def part_somersault(task: Tuple, col: common.Collector) -> None:
         subj = Subject("somersault", None, tmp)
         run_subject(col, subj, edits, do_self=chunk == 0)
         col.count("somersault-edits", len(edits))
+        if chunk in (0, 1):
+            tool_leg(col, tmp, edits if chunk == 0 else list(reversed(edits)))
     finally:
         shutil.rmtree(tmp, ignore_errors=True)
 
@@ -1077,7 +1167,8 @@ def part(task: Tuple, col: common.Collector) -> None:
 REQUIRED = (["kind:add", "kind:delete", "kind:rename", "kind:param-change",
              "self-compare:layers", "db-compare:self", "db-compare:edit", "metrics-rows",
              "metrics-rows-with-comparams", "metrics-rows-with-dops", "somersault-edits",
-             "edit:delete/service/new-layer-has-no-service", "edit:param-change/dop-data-type"] +
+             "edit:delete/service/new-layer-has-no-service", "edit:param-change/dop-data-type",
+             "tool-leg:overview-tables"] +
             [f"attr:{a}/{k}" for a in PARAM_ATTRS for k in ("request", "pos", "neg")])
 
 
